@@ -49,8 +49,8 @@ def ser_table():
         "U128": [r"json:as_u64 W128 extend:varint"],
         "Usize": [r"json:as_u64 try_from:usize W64 extend:varint"],
         "Isize": [r"json:as_i64 ZZ64 W64 extend:varint"],
-        "F32": [r"json:as_f64 to_le_bytes:f32 extend:le4"],
-        "F64": [r"json:as_f64 to_le_bytes:f64 extend:le8"],
+        "F32": [r"json:as_f64 extend:f32le"],
+        "F64": [r"json:as_f64 extend:f64le"],
         "Char": [r"json:String W64 extend:varint extend:str-bytes"],
         "String": [r"json:String W64 extend:varint extend:str-bytes"],
         "ByteArray": [r"json:Array W64 extend:varint std:next" + LOOP(r"json:as_u64 try_from:u8 push:byte std:next")],
@@ -80,8 +80,8 @@ def de_table():
         "I128": [(r"R128 UZ128 try_from:i64", "Number")],
         "U16": [(r"R16", "Number")], "U32": [(r"R32", "Number")], "U64": [(r"R64", "Number")],
         "U128": [(r"R128 try_from:u64", "Number")], "Usize": [(r"R64", "Number")], "Isize": [(r"R64 UZ64", "Number")],
-        "F32": [(r"take:4 from_le_bytes:f32 into:f64 std:from_f64", "Number")],
-        "F64": [(r"take:8 from_le_bytes:f64 std:from_f64", "Number")],
+        "F32": [(r"take:4 std:from_f64:f32le", "Number")],
+        "F64": [(r"take:8 std:from_f64:f64le", "Number")],
         "Char": [(r"R64 take:len std:from_utf8", "String")], "String": [(r"R64 take:len std:from_utf8", "String")],
         "ByteArray": [(r"R64 take:len std:map std:collect", "Array")],
         "Option": [(r"take1", "Null"), (r"take1 rec:@Option/0", "rec")],
